@@ -219,6 +219,28 @@ pub open spec fn assoc_val<T: BasicDataCustom>(d: BasicData<T>) -> usize {
     match d { BasicData::AssociativeItem(_, v) => v, _ => 0 }
 }
 
+
+/// the next append to the data table fits: the block has room, or the configured growth makes progress and fits the machine
+pub open spec fn push_ok<T: BasicDataCustom, C: BasicDataCompanion<T>>(s: BasicGarnishData<T, C>) -> bool {
+    s.data_block.cursor >= s.data_block.size ==> (next_size_spec(s.data_block) > s.data_block.size
+        && s.instruction_block.size + s.jump_table_block.size + s.symbol_table_block.size + s.expression_symbol_block.size + next_size_spec(s.data_block) + s.custom_data_block.size <= usize::MAX)
+}
+
+/// `m` is `s` after one append to the data table (what push_to_data_block ensures)
+pub open spec fn pushed_one<T: BasicDataCustom, C: BasicDataCompanion<T>>(s: BasicGarnishData<T, C>, m: BasicGarnishData<T, C>) -> bool {
+    m.inv() && m.data_view().len() == s.data_view().len() + 1 && s.data_view().is_prefix_of(m.data_view())
+    && m.instructions_view() =~= s.instructions_view() && m.jumps_view() =~= s.jumps_view() && m.symbols_view() =~= s.symbols_view()
+    && m.expression_symbols_view() =~= s.expression_symbols_view() && m.custom_view() =~= s.custom_view() && m.same_scalars(&s)
+}
+
+/// the next n appends to the data table fit (memory is not exhausted within the call): the stated pre-condition of
+/// every method that appends a number of cells
+pub open spec fn push_ok_n<T: BasicDataCustom, C: BasicDataCompanion<T>>(s: BasicGarnishData<T, C>, n: nat) -> bool
+    decreases n
+{
+    n == 0 || (push_ok(s) && forall|m: BasicGarnishData<T, C>| #[trigger] pushed_one(s, m) ==> push_ok_n(m, (n - 1) as nat))
+}
+
 /// a growth request "makes progress" and fits the machine: next_size is bigger than size and does not overflow
 pub open spec fn next_size_spec(b: StorageBlock) -> int {
     match b.settings.reallocation_strategy {
